@@ -24,6 +24,8 @@
 //!   block <id> <parent> salt=<s> ep=<n>.<i>.<l> cb=<0|1> cbid=<tx id|auto> txs=<..> props=<..> uncles=<..>   => new|known|err dump
 //!   truncate <block id>                                   => ok|err dump
 //!   snap <k>                                              => dump of the snapshot published after the k-th state op
+//!   xblock <id> <parent> … uncles=<..> bad=<cap|capm|dao|ext|none>   a block that must be refused once it or a descendant becomes the best chain => new|err dump
+//!   xcols 1                                               => ok; from now on every dump ends with ` mmr=<pos>:<block ids covered>,…`: ALL rows of COLUMN_CHAIN_ROOT_MMR (stale ones included)
 use crate::common::*;
 use crate::node::*;
 use ckb_db::iter::IteratorMode;
@@ -381,6 +383,32 @@ pub struct Exec<'a> {
     /// special reorg shapes reached in this case ("aba", "same-epoch-number", "multi-spend")
     pub reorg_shapes: BTreeSet<String>,
     pub stale_epnum_seen: bool,
+    /// the next block `Gen::build` emits is made invalid in this way (an `xblock … bad=<kind>` line)
+    pub bad_next: Option<String>,
+    /// blocks the node refused (`err`): deleted again by `delete_unverified_block`, never a parent
+    pub dead: HashSet<u64>,
+    /// stored blocks that are invalid or have an invalid ancestor: must never become the tip
+    pub poisoned: HashSet<u64>,
+    /// stored blocks with unresolvable inputs: the chain builder cannot build on them
+    pub nochild: HashSet<u64>,
+    /// `xcols 1`: dumps include the chain-root MMR column
+    pub xcols: bool,
+    /// digest of the perfect subtree of height h ending at block id, over the block's own ancestors
+    mmr_dig: HashMap<(u64, u32), packed::HeaderDigest>,
+    /// raw digest -> the ids of the blocks it covers ("a.b.c")
+    mmr_names: HashMap<Vec<u8>, String>,
+}
+
+/// every column of the database, raw
+const ALL_COLUMNS: [Col; 19] = [
+    COLUMN_INDEX, COLUMN_BLOCK_HEADER, COLUMN_BLOCK_BODY, COLUMN_BLOCK_UNCLE, COLUMN_META, COLUMN_TRANSACTION_INFO,
+    COLUMN_BLOCK_EXT, COLUMN_BLOCK_PROPOSAL_IDS, COLUMN_BLOCK_EPOCH, COLUMN_EPOCH, COLUMN_CELL, COLUMN_UNCLES,
+    COLUMN_CELL_DATA, COLUMN_NUMBER_HASH, COLUMN_CELL_DATA_HASH, COLUMN_BLOCK_EXTENSION, COLUMN_CHAIN_ROOT_MMR,
+    COLUMN_BLOCK_FILTER, COLUMN_BLOCK_FILTER_HASH,
+];
+
+fn raw_all<S: ChainStore>(s: &S) -> Vec<(Col, Vec<(Vec<u8>, Vec<u8>)>)> {
+    ALL_COLUMNS.iter().map(|c| (*c, iter_col(s, c))).collect()
 }
 
 impl<'a> Exec<'a> {
@@ -403,7 +431,113 @@ impl<'a> Exec<'a> {
             reorg_depths: BTreeSet::new(),
             reorg_shapes: BTreeSet::new(),
             stale_epnum_seen: false,
+            bad_next: None,
+            dead: HashSet::new(),
+            poisoned: HashSet::new(),
+            nochild: HashSet::new(),
+            xcols: false,
+            mmr_dig: HashMap::new(),
+            mmr_names: HashMap::new(),
         }
+    }
+
+    /// Explain the digests block `id` (already in `ablocks` / `ids.blkv`) can contribute to an MMR:
+    /// the leaf, and for every h with 2^h | number+1 the node of height h whose last leaf it is,
+    /// computed with the real `MergeHeaderDigest::merge` over the block's own parent path.
+    fn name_digests(&mut self, id: u64) {
+        use ckb_merkle_mountain_range::Merge;
+        use ckb_types::utilities::merkle_mountain_range::MergeHeaderDigest;
+        let blk = self.ids.blkv[&id].clone();
+        let n = blk.number();
+        let leaf = blk.digest();
+        self.mmr_names.insert(leaf.as_slice().to_vec(), id.to_string());
+        self.mmr_dig.insert((id, 0), leaf);
+        let mut h = 1u32;
+        while (n + 1) % (1u64 << h) == 0 {
+            let mut left_end = id;
+            for _ in 0..(1u64 << (h - 1)) {
+                left_end = self.ablocks[&left_end].parent;
+            }
+            let (l, r) = match (self.mmr_dig.get(&(left_end, h - 1)), self.mmr_dig.get(&(id, h - 1))) {
+                (Some(l), Some(r)) => (l.clone(), r.clone()),
+                _ => break,
+            };
+            let m = match MergeHeaderDigest::merge(&l, &r) {
+                Ok(m) => m,
+                Err(_) => break,
+            };
+            let name = format!("{}.{}", self.mmr_names[l.as_slice()], self.mmr_names[r.as_slice()]);
+            self.mmr_names.insert(m.as_slice().to_vec(), name);
+            self.mmr_dig.insert((id, h), m);
+            h += 1;
+        }
+    }
+
+    /// the dump line of a store / snapshot, with the MMR column when `xcols` is on
+    fn full_line<S: ChainStore>(&self, s: &S, d: &Dump) -> String {
+        let line = d.line();
+        if !self.xcols {
+            return line;
+        }
+        let mut rows: Vec<(u64, String)> = iter_col(s, COLUMN_CHAIN_ROOT_MMR)
+            .into_iter()
+            .map(|(k, v)| (le64(&k), self.mmr_names.get(&v).cloned().unwrap_or_else(|| "?".to_string())))
+            .collect();
+        rows.sort();
+        let txt: Vec<String> = rows.iter().map(|(p, n)| format!("{}:{}", p, n)).collect();
+        format!("{} mmr={}", line, if txt.is_empty() { "-".to_string() } else { txt.join(",") })
+    }
+
+    /// live out-points of the branch genesis..=tip, from the abstract history alone
+    pub fn branch_live(&self, tip: u64) -> BTreeSet<(u64, u32)> {
+        let mut path = vec![tip];
+        let mut cur = tip;
+        while cur != 0 {
+            cur = self.ablocks[&cur].parent;
+            path.push(cur);
+        }
+        path.reverse();
+        let mut live = BTreeSet::new();
+        for b in path {
+            let ab = &self.ablocks[&b];
+            if b == 0 {
+                live.insert((0, 0));
+            } else if ab.cb_out {
+                live.insert((ab.cbid, 0));
+            }
+            for t in &ab.txs {
+                let at = &self.atxs[t];
+                for i in &at.inputs {
+                    live.remove(i);
+                }
+                for o in 0..at.nout {
+                    live.insert((*t, o as u32));
+                }
+            }
+        }
+        live
+    }
+
+    /// independent of the node and of the Lean model: some input of `txs` (in block order, on top of
+    /// `parent`'s branch) is dead, unknown, spent twice in the block or created later in the block
+    pub fn unresolvable(&self, parent: u64, txs: &[u64]) -> bool {
+        let live = self.branch_live(parent);
+        let mut seen: HashSet<(u64, u32)> = HashSet::new();
+        for (k, t) in txs.iter().enumerate() {
+            for i in &self.atxs[t].inputs {
+                if !seen.insert(*i) {
+                    return true;
+                }
+                if let Some(pos) = txs.iter().position(|x| *x == i.0) {
+                    if pos >= k || (i.1 as usize) >= self.atxs[&i.0].nout {
+                        return true;
+                    }
+                } else if !live.contains(i) {
+                    return true;
+                }
+            }
+        }
+        false
     }
 
     pub fn begin_case(&mut self, label: &str) {
@@ -452,12 +586,33 @@ impl<'a> Exec<'a> {
         let node = self.node.as_ref().unwrap();
         let snap = node.shared.cloned_snapshot();
         let d = dump(node.store(), &self.ids, &self.gdiff);
-        let line = d.line();
+        let line = self.full_line(node.store(), &d);
         let tip = node.store().get_tip_header().expect("tip");
         // the published snapshot is the committed state
         let sd = dump(&*snap, &self.ids, &self.gdiff);
-        if sd != d {
-            self.out.oracle_fail("snapshot-neq-store-at-quiescence", &format!("snapshot `{}` store `{}`", sd.line(), line));
+        let sline = self.full_line(&*snap, &sd);
+        if sd != d || sline != line {
+            self.out.oracle_fail("snapshot-neq-store-at-quiescence", &format!("snapshot `{}` store `{}`", sline, line));
+        }
+        if self.xcols {
+            // every MMR row below the tip's mmr size is the merge tree of a run of main-chain blocks
+            let size = leaf_index_to_mmr_size(tip.number());
+            for (k, v) in iter_col(node.store(), COLUMN_CHAIN_ROOT_MMR) {
+                let p = le64(&k);
+                if p >= size {
+                    continue;
+                }
+                match self.mmr_names.get(&v) {
+                    None => self.out.oracle_fail("mmr-node-not-a-chain-segment", &format!("position {} below mmr size {}", p, size)),
+                    Some(n) => {
+                        let last: u64 = n.rsplit('.').next().unwrap().parse().unwrap();
+                        let h = self.ids.blkv[&last].hash();
+                        if !node.store().is_main_chain(&h) {
+                            self.out.oracle_fail("mmr-node-of-a-side-branch-below-size", &format!("position {} covers blocks {} (mmr size {})", p, n, size));
+                        }
+                    }
+                }
+            }
         }
         if snap.tip_hash() != tip.hash() {
             self.out.oracle_fail("snapshot-tip-neq-store-tip", "");
@@ -504,7 +659,7 @@ impl<'a> Exec<'a> {
                 self.out.oracle_fail(&c, &t);
             }
         }
-        self.snaps.push((snap, sd.line()));
+        self.snaps.push((snap, sline));
         line
     }
 
@@ -550,7 +705,7 @@ impl<'a> Exec<'a> {
         // snapshots are values: every snapshot published earlier still reads what it read then
         let snaps = std::mem::take(&mut self.snaps);
         for (s, line) in snaps.iter() {
-            let now = dump(&**s, &self.ids, &self.gdiff).line();
+            let now = self.full_line(&**s, &dump(&**s, &self.ids, &self.gdiff));
             if &now != line {
                 self.out.oracle_fail("snapshot-changed-after-publication", &format!("then `{}` now `{}`", line, now));
             }
@@ -564,6 +719,13 @@ impl<'a> Exec<'a> {
         self.truncated = false;
         self.ablocks.clear();
         self.atxs.clear();
+        self.bad_next = None;
+        self.dead.clear();
+        self.poisoned.clear();
+        self.nochild.clear();
+        self.xcols = false;
+        self.mmr_dig.clear();
+        self.mmr_names.clear();
         let _ = std::fs::remove_dir_all(self.base.join(format!("case-{}", self.case_no)));
     }
 
@@ -607,6 +769,10 @@ impl<'a> Exec<'a> {
                 self.cfg = cfg;
                 self.out.op(line, "ok");
             }
+            "xcols" => {
+                self.xcols = true;
+                self.out.op(line, "ok");
+            }
             "gtx" => {
                 let id: u64 = t[1].parse().unwrap();
                 let g = self.node.as_ref().unwrap().consensus.genesis_block().clone();
@@ -623,6 +789,7 @@ impl<'a> Exec<'a> {
                 self.ids.blk.insert(g.hash(), 0);
                 self.ids.blkv.insert(0, g.clone());
                 self.ablocks.insert(0, ABlock { id: 0, parent: 0, number: 0, salt: 0, cb_out: true, cbid: 0, txs: txs[1..].to_vec(), props: vec![], uncles: vec![] });
+                self.name_digests(0);
                 self.start_reader();
                 let d = self.observe();
                 self.out.op(line, &d);
@@ -642,7 +809,12 @@ impl<'a> Exec<'a> {
                 self.out.op(line, "ok");
                 self.out.count("tx");
             }
-            "block" => {
+            "block" | "xblock" => {
+                // `xblock … bad=<kind>`: a block that must fail verification when it (or a descendant)
+                // becomes the best chain: cap / capm (cellbase capacity +1 / -1), dao (DAO field), ext
+                // (chain-root extension) — rules outside the store model, flagged to it — or none: the
+                // listed transactions have an unresolvable input (the model decides that itself)
+                let bad: Option<&str> = if t[0] == "xblock" { Some(kv(t[10], "bad")) } else { None };
                 let id: u64 = t[1].parse().unwrap();
                 let parent: u64 = t[2].parse().unwrap();
                 let salt: u64 = kv(t[3], "salt").parse().unwrap();
@@ -658,8 +830,25 @@ impl<'a> Exec<'a> {
                     proposals: props.iter().map(|i| self.ids.txv[i].proposal_short_id()).collect(),
                     uncles: uncles.iter().map(|i| self.ids.blkv[i].as_uncle()).collect(),
                     salt,
+                    tweak: match bad {
+                        None | Some("none") => Tweak::None,
+                        Some("cap") => Tweak::CellbaseCapacity(1),
+                        Some("capm") => Tweak::CellbaseCapacity(-1),
+                        Some("dao") => Tweak::Dao,
+                        Some("ext") => Tweak::Extension,
+                        Some(k) => panic!("malformed op: unknown bad kind {}", k),
+                    },
                     ..Default::default()
                 };
+                assert!(!self.dead.contains(&parent) && !self.nochild.contains(&parent), "malformed op: parent {} cannot be built on", parent);
+                let unres = self.unresolvable(parent, &txs);
+                match bad {
+                    Some("none") => assert!(unres, "malformed op: xblock bad=none whose inputs all resolve"),
+                    Some("cap") | Some("capm") => assert!(cb == 1, "malformed op: cellbase tweak on a block without cellbase output"),
+                    _ => {}
+                }
+                let flagged = matches!(bad, Some(k) if k != "none");
+                let poisoned_now = flagged || unres || self.poisoned.contains(&parent);
                 let blk = self.builder.as_mut().unwrap().build(&ph, &spec);
                 let e = blk.epoch();
                 assert_eq!(epf, format!("{}.{}.{}", e.number(), e.index(), e.length()), "block line epoch differs from the built block");
@@ -669,6 +858,7 @@ impl<'a> Exec<'a> {
                 let line = line_owned.as_str();
                 let number = blk.number();
                 self.ablocks.insert(id, ABlock { id, parent, number, salt, cb_out: cb == 1, cbid, txs, props, uncles: uncles.clone() });
+                self.name_digests(id);
                 let old_tip = self.node.as_ref().unwrap().tip();
                 let common_before = {
                     let store = self.node.as_ref().unwrap().store();
@@ -695,13 +885,36 @@ impl<'a> Exec<'a> {
                     }
                     k
                 };
+                // a block that must be refused: the whole database, raw, before it is submitted
+                let db_before = if poisoned_now { Some(raw_all(self.node.as_ref().unwrap().store())) } else { None };
                 let r = self.node.as_ref().unwrap().process(&blk);
                 let res = match &r {
                     Ok(true) => "new",
                     Ok(false) => "known",
                     Err(_) => "err",
                 };
-                if let Err(e) = &r {
+                if r.is_err() && poisoned_now {
+                    // all or nothing, on the implementation alone: the tip did not move and EVERY column
+                    // of the database is byte-identical to what it was before the block was submitted
+                    // (the reorg transaction was dropped, `delete_unverified_block` undid `insert_block`)
+                    self.out.count("invalid_block_refused");
+                    self.out.count(&format!("invalid_block_refused_{}", if unres { "unresolvable" } else if flagged { bad.unwrap() } else { "bad_ancestor" }));
+                    let node = self.node.as_ref().unwrap();
+                    if node.tip().hash() != old_tip.hash() {
+                        self.out.oracle_fail("failed-reorg-moved-tip", &format!("block {} refused but the tip moved", id));
+                    }
+                    let after = raw_all(node.store());
+                    for ((c, a), (_, b)) in db_before.as_ref().unwrap().iter().zip(after.iter()) {
+                        if a != b {
+                            self.out.oracle_fail(&format!("failed-reorg-changed-column-{}", c), &format!("block {} refused: {} rows before, {} rows after", id, a.len(), b.len()));
+                        }
+                    }
+                    let depth = old_tip.number() - common_before;
+                    self.out.count(&format!("failed_reorg_depth_{:02}", depth));
+                    if reattached_verified > 0 {
+                        self.out.count("failed_reorg_reattaching_verified_blocks");
+                    }
+                } else if let Err(e) = &r {
                     self.out.count("block_rejected");
                     eprintln!("C02: block {} rejected: {}", id, e);
                     // every block of this stream is built valid against the replay of its own branch
@@ -783,6 +996,19 @@ impl<'a> Exec<'a> {
                         }
                     }
                 }
+                if r.is_err() {
+                    self.dead.insert(id);
+                    self.ablocks.remove(&id);
+                } else if poisoned_now {
+                    self.poisoned.insert(id);
+                    if unres {
+                        self.nochild.insert(id);
+                    }
+                    self.out.count("invalid_block_stored_as_side_block");
+                }
+                if self.poisoned.contains(&self.tip_id()) {
+                    self.out.oracle_fail("invalid-chain-became-main", &format!("the tip {} is an invalid block or has an invalid ancestor", self.tip_id()));
+                }
                 let d = self.observe();
                 self.out.op(line, &format!("{} {}", res, d));
             }
@@ -798,7 +1024,7 @@ impl<'a> Exec<'a> {
             "snap" => {
                 let k: usize = t[1].parse().unwrap();
                 let (s, then) = self.snaps.get(k).expect("snapshot index").clone();
-                let now = dump(&*s, &self.ids, &self.gdiff).line();
+                let now = self.full_line(&*s, &dump(&*s, &self.ids, &self.gdiff));
                 if now != then {
                     self.out.oracle_fail("snapshot-changed-after-publication", &format!("then `{}` now `{}`", then, now));
                 }
@@ -911,6 +1137,7 @@ impl Gen {
 
     /// emit (tx lines +) one block line on `parent`; returns the block id
     pub fn build(&mut self, ex: &mut Exec, rng: &mut Rng, parent: u64, busy: bool) -> u64 {
+        let mut bad = ex.bad_next.take();
         let c = self.ctx(ex, parent);
         let n = ex.ablocks[&parent].number + 1;
         let (wc, wf) = self.w;
@@ -1017,7 +1244,61 @@ impl Gen {
         let id = self.next_blk;
         self.next_blk += 1;
         let cb = if n > wf + 1 { 1 } else { 0 };
-        let line = format!("block {} {} salt={} ep={}.{}.{} cb={} cbid=auto txs={} props={} uncles={}", id, parent, id, n / self.l, n % self.l, self.l, cb, list(&txs), list(&props), list(&uncles));
+        // an invalid block: a rule outside the store model (cap / capm / dao / ext), or a transaction
+        // with an unresolvable input: dead (spent earlier on this branch), twice (one live cell spent by
+        // two transactions of the block), foreign (a cell that exists on another branch only)
+        if let Some(k) = bad.clone() {
+            let new_tx = |ex: &mut Exec, g: &mut Gen, inp: (u64, u32)| -> u64 {
+                let tid = g.next_tx;
+                g.next_tx += 1;
+                ex.apply(&format!("tx {} fee=1000 salt={} in={}:{} out=8.{}", tid, tid, inp.0, inp.1, tid));
+                tid
+            };
+            let big = |ex: &Exec, x: &(u64, u32)| ex.cap_of(x.0, x.1) >= 200_0000_0000;
+            let mut eff: Option<String> = None;
+            match k.as_str() {
+                "dead" => {
+                    let mut cand: Vec<(u64, u32)> = c.committed.iter().filter(|t| **t >= 100).flat_map(|t| ex.atxs[t].inputs.clone()).filter(|i| !live.contains(i) && !txs.contains(&i.0) && big(ex, i)).collect();
+                    cand.sort();
+                    if !cand.is_empty() {
+                        let i = *rng.pick(&cand);
+                        let t = new_tx(ex, self, i);
+                        txs.push(t);
+                        eff = Some("none".into());
+                    }
+                }
+                "twice" => {
+                    let cand: Vec<(u64, u32)> = live.iter().filter(|x| **x != (0, 0) && big(ex, x)).cloned().collect();
+                    if !cand.is_empty() {
+                        let i = *rng.pick(&cand);
+                        let t1 = new_tx(ex, self, i);
+                        let t2 = new_tx(ex, self, i);
+                        txs.push(t1);
+                        txs.push(t2);
+                        eff = Some("none".into());
+                    }
+                }
+                "foreign" => {
+                    let mut cand: Vec<u64> = ex.atxs.keys().filter(|t| **t >= 100 && !c.committed.contains(*t) && !txs.contains(*t) && !live.contains(&(**t, 0))).cloned().collect();
+                    cand.sort();
+                    let cand: Vec<u64> = cand.into_iter().filter(|t| big(ex, &(*t, 0))).collect();
+                    if !cand.is_empty() {
+                        let t0 = *rng.pick(&cand);
+                        let t = new_tx(ex, self, (t0, 0));
+                        txs.push(t);
+                        eff = Some("none".into());
+                    }
+                }
+                "cap" | "capm" if cb == 1 => eff = Some(k.clone()),
+                "ext" => eff = Some(k.clone()),
+                _ => {}
+            }
+            bad = Some(eff.unwrap_or_else(|| "dao".into()));
+        }
+        let line = match &bad {
+            None => format!("block {} {} salt={} ep={}.{}.{} cb={} cbid=auto txs={} props={} uncles={}", id, parent, id, n / self.l, n % self.l, self.l, cb, list(&txs), list(&props), list(&uncles)),
+            Some(k) => format!("xblock {} {} salt={} ep={}.{}.{} cb={} cbid=auto txs={} props={} uncles={} bad={}", id, parent, id, n / self.l, n % self.l, self.l, cb, list(&txs), list(&props), list(&uncles), k),
+        };
         ex.apply(&line);
         id
     }
@@ -1045,6 +1326,7 @@ fn gen_case(ex: &mut Exec, rng: &mut Rng, case: u64, target_blocks: u64) {
     ex.begin_case(&format!("store l={} w={}.{} g={}", l, w.0, w.1, gcells));
     let cfg = NodeCfg { epoch_len: l, window: w, genesis_cells: gcells, with_pool: false, ..Default::default() };
     ex.apply(&format!("cfg {} {} {} {}", l, w.0, w.1, gcells));
+    ex.apply("xcols 1");
     for op in Exec::genesis_ops(&cfg) {
         ex.apply(&op);
     }
@@ -1064,8 +1346,87 @@ fn gen_case(ex: &mut Exec, rng: &mut Rng, case: u64, target_blocks: u64) {
             }
             x != *a
         });
-        if r < 38 || tipn < 3 {
+        tips.retain(|t| !ex.dead.contains(t) && !ex.nochild.contains(t));
+        if r < 29 || tipn < 3 {
             g.build(ex, rng, tip, true);
+        } else if r < 38 {
+            // invalid blocks: the node must refuse them and leave every column as it was
+            const KINDS: [&str; 7] = ["dead", "twice", "foreign", "cap", "capm", "dao", "ext"];
+            const RULES: [&str; 4] = ["cap", "capm", "dao", "ext"];
+            let shape = rng.below(4);
+            if shape == 0 {
+                // directly on the tip: a failing extension
+                ex.bad_next = Some(rng.pick(&KINDS).to_string());
+                g.build(ex, rng, tip, true);
+                ex.out_count("bad_shape_extension");
+            } else if shape == 1 {
+                // a valid fork of depth d whose overtaking block is invalid (rollback of d blocks and
+                // d attaches inside the transaction that is dropped), then a valid sibling that overtakes
+                let d = rng.range(1, tipn.min(6));
+                let mut p = ex.ancestor(tip, d);
+                for _ in 0..d {
+                    p = g.build(ex, rng, p, true);
+                }
+                if ex.tip_id() == tip {
+                    ex.bad_next = Some(rng.pick(&KINDS).to_string());
+                    g.build(ex, rng, p, true);
+                    if rng.chance(1, 2) && ex.tip_id() == tip {
+                        let q = g.build(ex, rng, p, true);
+                        if ex.tip_id() == q {
+                            old_mains.push(tip);
+                        }
+                    } else {
+                        tips.push(p);
+                    }
+                }
+                ex.out_count("bad_shape_overtaking_block");
+            } else if shape == 2 {
+                // a fork with an invalid block in it (stored as a side block), valid blocks on top: every
+                // block that would make the fork the best chain is refused, again and again
+                let d = rng.range(1, tipn.min(5));
+                let mut p = ex.ancestor(tip, d);
+                let j = rng.below(d);
+                let mut k = 0;
+                while ex.tip_id() == tip && k < d + 3 && !ex.dead.contains(&p) {
+                    if k == j {
+                        ex.bad_next = Some(rng.pick(&RULES).to_string());
+                    }
+                    let q = g.build(ex, rng, p, k % 2 == 0);
+                    if ex.dead.contains(&q) {
+                        // refused: try once more from the same parent
+                        if rng.chance(1, 2) {
+                            g.build(ex, rng, p, false);
+                        }
+                        break;
+                    }
+                    p = q;
+                    k += 1;
+                }
+                if !ex.dead.contains(&p) {
+                    tips.push(p);
+                }
+                ex.out_count("bad_shape_inside_fork");
+            } else if !old_mains.is_empty() {
+                // A -> B -> A' where A' contains an invalid block: verified blocks are re-attached
+                // (verified_len > 0) before the failure
+                let i = rng.below(old_mains.len() as u64) as usize;
+                let mut p = old_mains.remove(i);
+                ex.bad_next = Some(rng.pick(&RULES).to_string());
+                let mut k = 0;
+                while ex.tip_id() == tip && k < 14 {
+                    let q = g.build(ex, rng, p, false);
+                    if ex.dead.contains(&q) {
+                        break;
+                    }
+                    p = q;
+                    k += 1;
+                }
+                ex.out_count("bad_shape_aba");
+            } else {
+                ex.bad_next = Some(rng.pick(&RULES).to_string());
+                g.build(ex, rng, tip, false);
+                ex.out_count("bad_shape_extension");
+            }
         } else if r < 45 && !old_mains.is_empty() {
             // A -> B -> A': extend a branch that was verified and main until it wins again, so that
             // find_fork's attached list starts with already verified blocks (verified_len > 0)
